@@ -1351,7 +1351,17 @@ pub fn gen_module(rng: &mut Rng, cfg: &GenCfg) -> Generated {
     let mut data_specs = vec![];
     for _ in 0..ndata {
         let len = *rng.pick(&[0usize, 1, 3, 17, 127, 128, 300]);
-        let bytes: Vec<u8> = (0..len).map(|_| rng.next() as u8).collect();
+        let mut bytes: Vec<u8> = (0..len).map(|_| rng.next() as u8).collect();
+        // payloads that end (or start) in zero bytes: the zeros are part of the segment
+        if len > 0 && rng.chance(1, 3) {
+            let z = rng.range(1, 3.min(len as u64)) as usize;
+            for b in bytes.iter_mut().rev().take(z) {
+                *b = 0;
+            }
+            if rng.chance(1, 3) {
+                bytes[0] = 0;
+            }
+        }
         if !mems.is_empty() && (rng.chance(2, 3) || !cfg.bulk) {
             let m = rng.below(mems.len() as u64) as u32;
             let off_ty = if mems[m as usize].is64 { VT::I64 } else { VT::I32 };
